@@ -28,7 +28,10 @@ JRt(T) ==
   /\ (~TpfExpressible(NoTags(a)) \/ (T.cli_exc = "" /\ T.cli_a2t2a = NoTags(a)) \/ Say(T, "V", "C05.agp_tpf_agp_drops_only_tags", Cls(T)))
   /\ TLCSet(2, TLCGet(2) + 1)
 \* every non-blank, non-comment line yields exactly one row or an error
-JCorrupt(T) == (T.exc # "" \/ T.nrows = T.nlines) \/ Say(T, "V", "C05.one_row_per_line_or_error", T.fmt \o "/" \o T.what)
+\* M-level: the parsers as modelled reject these corruptions outright (the statement itself is satisfied by "exactly one row" as well)
+MustRaise == {"bad-strand", "non-numeric-start", "bad-name-format", "extra-column", "only-two-columns", "drop-column-2", "gap-first"}
+JCorrupt(T) == /\ ((T.exc # "" \/ T.nrows = T.nlines) \/ Say(T, "V", "C05.one_row_per_line_or_error", T.fmt \o "/" \o T.what))
+               /\ ((T.what \notin MustRaise \/ T.exc # "") \/ Say(T, "M", "parser_accepts_corrupt_line", T.fmt \o "/" \o T.what))
 JAgp(T) ==
   /\ TLCSet(3, TLCGet(3) + 1)
   /\ (T.lossless = 1 \/ Say(T, "V", "C06.agp_valid", T.src \o "/unparsable-columns"))
